@@ -168,11 +168,11 @@ def gen_pumped(rng, tier):
     if through:
         # the chain runs through the generator itself: the probe is active before the generator
         # exists, and the generator's first step is made by pump (it is entered under a pump
-        # activation; later ones resume it).  No captures on the pump level: which call of pump a
-        # generator entered under one and resumed under another belongs to is not stated.
+        # activation; later ones resume it).  The values of pump in the event are those of the
+        # call of pump that is running then.
         for op in ops:
             if op["op"] == "mk" and op["id"] == live[0]:
-                op["sels"] = [sel(["pump", gfn, "g"], "a")]
+                op["sels"] = [sel(["pump", gfn, "g"], "a", ["q"] if rng.random() < 0.7 else [])]
         ops.append({"op": "call", "fn": "pump", "nargs": 1, "tape": tape(), "faults": {}})
     elif rng.random() < 0.5:
         ops.append({"op": "gen_next", "gen": "g0", "tape": tape(), "faults": {}})
